@@ -8,6 +8,7 @@ import (
 	"github.com/lyraproj/issue/issue"
 	"github.com/lyraproj/pcore/px"
 	"github.com/lyraproj/pcore/types"
+	"github.com/lyraproj/pcore/verifhook"
 )
 
 type (
@@ -74,6 +75,7 @@ func load(c px.Context, name px.TypedName) (interface{}, bool) {
 	}
 	entry := l.LoadEntry(c, name)
 	if entry == nil {
+		verifhook.Point("load.miss-window")
 		if dl, ok := l.(px.DefiningLoader); ok {
 			dl.SetEntry(name, &loaderEntry{nil, nil})
 		}
@@ -160,6 +162,7 @@ func (l *basicLoader) NameAuthority() px.URI {
 func (l *parentedLoader) Discover(c px.Context, predicate func(tn px.TypedName) bool) []px.TypedName {
 	found := l.parent.Discover(c, predicate)
 	added := false
+	verifhook.Point("parented.discover")
 	l.lock.RLock()
 	defer l.lock.RUnlock()
 	for k, e := range l.namedEntries {
@@ -186,6 +189,7 @@ func (l *parentedLoader) HasEntry(name px.TypedName) bool {
 
 func (l *parentedLoader) LoadEntry(c px.Context, name px.TypedName) px.LoaderEntry {
 	entry := l.parent.LoadEntry(c, name)
+	verifhook.Point("parented.loadentry")
 	if entry == nil || entry.Value() == nil {
 		entry = l.basicLoader.LoadEntry(c, name)
 	}
